@@ -39,15 +39,7 @@ pub fn run(input: &Tree) -> Option<Tree> {
             Ok(s) => tl![A(0), state_tree(&s, &strings), A(0), ab(inputs_intact(&s, l.get(2)?))],
             Err(e) => {
                 let d = format!("{e:?}");
-                let k = if d.contains("Overflow { stack_type") {
-                    2
-                } else if d.contains("Underflow") {
-                    1
-                } else if d.contains("Int(") {
-                    3
-                } else {
-                    4
-                };
+                let k = fatal_kind(&d, 4);
                 let st = e.into_state();
                 tl![A(2), state_tree(&st, &strings), A(k), ab(inputs_intact(&st, l.get(2)?))]
             }
